@@ -8,6 +8,7 @@ import (
 	"github.com/orda-io/orda/client/pkg/internal/datatypes"
 	"github.com/orda-io/orda/client/pkg/model"
 	"github.com/orda-io/orda/client/pkg/operations"
+	"github.com/orda-io/orda/client/pkg/types"
 	"github.com/orda-io/orda/client/pkg/utils"
 	"github.com/wI2L/jsondiff"
 	"reflect"
@@ -279,6 +280,7 @@ func (its *document) PutToObject(key string, value interface{}) (Document, error
 	if err := its.assertLocalOp("PutToObject", TypeJSONObject, false); err != nil {
 		return nil, err
 	}
+	value = types.NormalizeValue(value) // the value as every other replica will see it
 	if isNilValue(value) {
 		return nil, errors.DatatypeIllegalParameters.New(its.L(), "null value is not allowed")
 	}
@@ -350,6 +352,7 @@ func (its *document) InsertToArray(pos int, values ...interface{}) (Document, er
 	if err := arr.validateInsertPosition(pos); err != nil {
 		return its, err
 	}
+	values = convertValues(values)
 	if isNilValue(values...) {
 		return its, errors.DatatypeIllegalParameters.New(its.L(), "null value is not allowed")
 	}
@@ -398,6 +401,7 @@ func (its *document) UpdateManyInArray(pos int, values ...interface{}) ([]Docume
 	if err := arr.validateGetRange(pos, len(values)); err != nil {
 		return nil, err
 	}
+	values = convertValues(values)
 	if isNilValue(values...) {
 		return nil, errors.DatatypeIllegalParameters.New(its.L(), "null value is not allowed")
 	}
@@ -407,6 +411,15 @@ func (its *document) UpdateManyInArray(pos int, values ...interface{}) ([]Docume
 		return nil, err
 	}
 	return its.toDocuments(oldOnes.([]jsonType)), nil
+}
+
+// convertValues returns the values as every other replica will see them (see types.NormalizeValue).
+func convertValues(values []interface{}) []interface{} {
+	converted := make([]interface{}, len(values))
+	for i, v := range values {
+		converted[i] = types.NormalizeValue(v)
+	}
+	return converted
 }
 
 func (its *document) GetTypeOfJSON() TypeOfJSON {
